@@ -51,7 +51,28 @@ def _c15(tier="quick", seed=0):
     return flow.restored_in_finally("calibration:calibrate", "project.settings.sim_end", "original_sim_end")
 
 
-EXTRA_CHECKS = {"C18": _c18, "C16": _c16, "C20": _c20, "C08": _c08, "C06": _c06, "C09": _c09, "C13": _c09, "C15": _c15}
+def _c17(tier="quick", seed=0):
+    out = []
+    for q in ("programs:ProgramSet.sample", "parameters:ParameterSet.sample", "utils:TimeSeries.sample"):   # (Parameter.sample / Program.sample are in-place by contract: they are called on the copies)
+        try:
+            out += flow.receiver_not_mutated(q)
+        except KeyError:
+            pass
+    return out
+
+
+_c09_raw = _c09
+
+
+def _c09(tier="quick", seed=0):
+    out = _c09_raw(tier, seed)
+    # a parameter scenario pins the BASELINE values (the parameter's own default interpolation) on every simulation time before its first overwrite
+    out += flow.assignment_is("scenarios:ParameterScenario.get_parset", "vals", "par.interpolate(tvec[tvec < scen_start], pop_label)", "values pinned before the first overwrite must come from the baseline interpolation")
+    out += flow.assignment_is("scenarios:ParameterScenario.get_parset", "scen_start", "min(overwrite['t'])", "the scenario starts at its first overwrite year")
+    return out
+
+
+EXTRA_CHECKS = {"C17": _c17, "C18": _c18, "C16": _c16, "C20": _c20, "C08": _c08, "C06": _c06, "C09": _c09, "C13": _c09, "C15": _c15}
 
 
 # ------------------------------------------------------------------------------------------------ replays on the real code
@@ -184,4 +205,4 @@ def _c18(tier="quick", seed=0):
     return _attach(_c18_raw(tier, seed), "handler-name-bound", _replay_load_calibration)
 
 
-EXTRA_CHECKS.update({"C18": _c18, "C16": _c16, "C20": _c20})
+EXTRA_CHECKS.update({"C18": _c18, "C16": _c16, "C20": _c20, "C09": _c09})
